@@ -25,11 +25,12 @@ def run(ctx, replay=None):
         if not os.path.exists(cases):
             raise Infra("case emission failed:\n" + r["out"][-2000:])
         if ctx.quick:
-            # the full product is 288 cases; quick takes every shape x option set with one intermediate kind each
+            # the full product is 768 cases; quick takes every shape x option set with one intermediate kind each
             allc = json.load(open(cases))
-            kinds = ["memory", "oci", "file"]
-            pick = [c for i, c in enumerate(sorted(allc, key=lambda c: json.dumps(c, sort_keys=True)))
-                    if c["inter"] == kinds[(i // 3 + ctx.seed) % 3]]
+            kinds = ["memory", "oci", "file", "remote"]
+            combos = sorted({json.dumps({"shape": c["shape"], "opts": c["opts"]}, sort_keys=True) for c in allc})
+            want = {k: kinds[(j + ctx.seed) % 4] for j, k in enumerate(combos)}
+            pick = [c for c in allc if c["inter"] == want[json.dumps({"shape": c["shape"], "opts": c["opts"]}, sort_keys=True)]]
             json.dump(pick, open(cases, "w"))
     out = ctx.sub("drv")
     r = go_test(ctx, "roundfam", "TestDrive", {"VH_OUT": out, "VH_CASES": cases}, timeout=3000)
